@@ -3,7 +3,7 @@
     Proofs/Poly_Proofs.v.  Carrier: Coq reals. *)
 From Coq Require Import Reals QArith Qreals List ZArith.
 From Coquelicot Require Import Coquelicot.
-From SB Require Import Base.Num Gen.Generated Model.Poly Spec.BezierSpec Model.RootCert Proofs.Poly_Proofs Proofs.RootCert_Proofs.
+From SB Require Import Base.Num Gen.Generated Model.Poly Spec.BezierSpec Model.RootCert Proofs.Poly_Proofs Proofs.RootCert_Proofs Proofs.F32Poly_Proofs.
 Import ListNotations.
 Local Open Scope R_scope.
 
@@ -98,3 +98,27 @@ Theorem solve_quadratic_exact : forall a b c x, a <> 0 ->
    (0 <= d /\ (x = (- b - sqrt d) / (2 * a) \/ x = (- b + sqrt d) / (2 * a)))).
 Proof. exact RootCert_Proofs.solve_quadratic_exact. Qed.
 Print Assumptions solve_quadratic_exact.
+
+(** ---- evaluation in binary32: rounding error of Horner's scheme ---- *)
+(** For EVERY coefficient list and EVERY argument the Horner scheme carried out
+    in the binary32 model (each operation followed by rounding to nearest even)
+    is within gamma_(2n) * sum |c_i| |u|^i of the exact value (Higham's bound;
+    n the number of coefficients), hence within 17 * 2^-24 * sum |c_i| |u|^i for
+    the polynomials of the library (at most 8 coefficients). *)
+Theorem horner_binary32_error : forall (cs : list Q) (u : Q),
+  (Qabs.Qabs (horner F32.F32Ops cs u - horner QOps cs u) <=
+   F32Poly_Proofs.gamma32 (2 * length cs) * F32Poly_Proofs.abs_eval cs u)%Q.
+Proof. exact F32Poly_Proofs.horner_f32_error. Qed.
+Print Assumptions horner_binary32_error.
+
+Theorem horner_binary32_error_deg7 : forall cs u, (length cs <= 8)%nat ->
+  (Qabs.Qabs (horner F32.F32Ops cs u - horner QOps cs u) <= (17 # 16777216) * F32Poly_Proofs.abs_eval cs u)%Q.
+Proof. exact F32Poly_Proofs.horner_f32_error_deg7. Qed.
+Print Assumptions horner_binary32_error_deg7.
+
+(** a + b*u in binary32 (yaw and colour interpolation) *)
+Theorem lerp_binary32_error : forall a b u,
+  (Qabs.Qabs (F32.fadd a (F32.fmul b u) - (a + b * u)) <=
+   F32Poly_Proofs.gamma32 2 * (Qabs.Qabs a + Qabs.Qabs b * Qabs.Qabs u))%Q.
+Proof. exact F32Poly_Proofs.lerp_f32_error. Qed.
+Print Assumptions lerp_binary32_error.
